@@ -14,10 +14,39 @@ import (
 
 // unconditionalStores: field -> bound expression, for the stores to fields of recv's struct that execute on every
 // path from entry to every return (after an optional early-return guard block given by `from`).
+// helperCallsOnAllPaths: set by storesOnAllPaths: the methods of the same receiver that are called on every path
+// (their own all-path stores were merged in).
+var helperCallsOnAllPaths map[*ssa.Function]bool
+
 func storesOnAllPaths(fn *ssa.Function, recv ssa.Value, from *ssa.BasicBlock) (all map[string]*ssa.Store, some map[string]*ssa.Store) {
+	return storesOnAllPathsD(fn, recv, from, 0)
+}
+
+func storesOnAllPathsD(fn *ssa.Function, recv ssa.Value, from *ssa.BasicBlock, depth int) (all map[string]*ssa.Store, some map[string]*ssa.Store) {
 	all = map[string]*ssa.Store{}
 	some = map[string]*ssa.Store{}
 	first := true
+	callsAll := map[*ssa.Function]bool{}
+	firstCalls := true
+	type helperSum struct{ all, some map[string]*ssa.Store }
+	helpers := map[*ssa.Function]*helperSum{}
+	helperOf := func(in ssa.Instruction) (*ssa.Function, *helperSum) {
+		call, ok := in.(*ssa.Call)
+		if !ok || depth > 1 || len(call.Call.Args) == 0 || call.Call.Args[0] != recv {
+			return nil, nil
+		}
+		h := call.Call.StaticCallee()
+		if h == nil || call.Call.IsInvoke() || len(h.Blocks) == 0 || len(h.Params) == 0 || h == fn || h.Pkg != fn.Pkg || !types.Identical(h.Params[0].Type(), recv.Type()) {
+			return nil, nil
+		}
+		if hs, ok := helpers[h]; ok {
+			return h, hs
+		}
+		a, sm := storesOnAllPathsD(h, h.Params[0], h.Blocks[0], depth+1)
+		hs := &helperSum{a, sm}
+		helpers[h] = hs
+		return h, hs
+	}
 	var rec func(b *ssa.BasicBlock, seen map[string]*ssa.Store, on map[*ssa.BasicBlock]bool)
 	rec = func(b *ssa.BasicBlock, seen map[string]*ssa.Store, on map[*ssa.BasicBlock]bool) {
 		if on[b] {
@@ -37,9 +66,38 @@ func storesOnAllPaths(fn *ssa.Function, recv ssa.Value, from *ssa.BasicBlock) (a
 					some[f] = st
 				}
 			}
+			// a method of the same receiver: what it stores on all of its paths is stored here
+			if h, hs := helperOf(in); hs != nil {
+				for f, st := range hs.all {
+					cur[f] = st
+				}
+				for f, st := range hs.some {
+					some[f] = st
+				}
+				cur["\x00call:"+h.String()] = nil
+			}
 		}
 		if len(b.Succs) == 0 {
 			if _, isRet := b.Instrs[len(b.Instrs)-1].(*ssa.Return); isRet {
+				these := map[*ssa.Function]bool{}
+				for k := range cur {
+					if strings.HasPrefix(k, "\x00call:") {
+						for h := range helpers {
+							if "\x00call:"+h.String() == k {
+								these[h] = true
+							}
+						}
+					}
+				}
+				if firstCalls {
+					callsAll, firstCalls = these, false
+				} else {
+					for h := range callsAll {
+						if !these[h] {
+							delete(callsAll, h)
+						}
+					}
+				}
 				if first {
 					for k, v := range cur {
 						all[k] = v
@@ -60,6 +118,14 @@ func storesOnAllPaths(fn *ssa.Function, recv ssa.Value, from *ssa.BasicBlock) (a
 		}
 	}
 	rec(from, map[string]*ssa.Store{}, map[*ssa.BasicBlock]bool{})
+	for k := range all {
+		if strings.HasPrefix(k, "\x00call:") {
+			delete(all, k)
+		}
+	}
+	if depth == 0 {
+		helperCallsOnAllPaths = callsAll
+	}
 	return
 }
 
@@ -235,6 +301,36 @@ func runJournalStopTimes(c *Ctx) {
 		return
 	}
 	fname := shortName(tu)
+	// the function in which the partition is applied: Trip.update itself, or the method of the same receiver it hands
+	// the stop time updates to (its parameters then stand for what Trip.update passes)
+	tuOuter := tu
+	{
+		calls := func(g *ssa.Function) bool {
+			for _, blk := range g.Blocks {
+				for _, in := range blk.Instrs {
+					if call, ok := in.(*ssa.Call); ok && staticCallee(call) == cp {
+						return true
+					}
+				}
+			}
+			return false
+		}
+		if !calls(tu) {
+			for _, blk := range tu.Blocks {
+				for _, in := range blk.Instrs {
+					call, ok := in.(*ssa.Call)
+					if !ok || len(call.Call.Args) == 0 || call.Call.Args[0] != ssa.Value(tuOuter.Params[0]) {
+						continue
+					}
+					if h := staticCallee(call); h != nil && h != tuOuter && len(h.Blocks) > 0 && h.Pkg == tuOuter.Pkg && calls(h) {
+						if sb := b.atCallSite(h, []*ssa.Function{tuOuter}); sb != nil {
+							tu, b = h, sb
+						}
+					}
+				}
+			}
+		}
+	}
 	ps := partitionShapeOf(cp)
 	feedTime := paramOfType(tu, "time.Time")
 	if ps == nil || feedTime == nil {
@@ -296,13 +392,45 @@ func runJournalStopTimes(c *Ctx) {
 		c.Violated("PART", fname, "every aligned entry is refreshed from its update", p.pos(tu.Pos()), "no loop over the aligned pairs")
 	}
 	if l := first(headerLoopsOver(tu, ps.nw)); l != nil {
-		ok, n := callOnAllTrips(l, stUpdate, func(call *ssa.Call) bool {
-			ia, isIA := call.Call.Args[1].(*ssa.IndexAddr)
+		fromNew := func(a ssa.Value) bool {
+			ia, isIA := a.(*ssa.IndexAddr)
 			if !isIA || !strings.HasSuffix(canon(ia.X), "."+ps.nw+")") {
 				return false
 			}
 			return rangeIndexSeq(ia.Index) != nil
-		})
+		}
+		ok, n := callOnAllTrips(l, stUpdate, func(call *ssa.Call) bool { return fromNew(call.Call.Args[1]) })
+		if !ok {
+			// the fresh entry may be made by a small helper `newStopTime(update, t)` that calls StopTime.update on a
+			// new value with its own parameters, on every path, and returns it
+			for lb := range l.Blocks {
+				for _, in := range lb.Instrs {
+					wc, isCall := in.(*ssa.Call)
+					if !isCall {
+						continue
+					}
+					g := staticCallee(wc)
+					if g == nil || g == stUpdate || g.Pkg != tu.Pkg || len(g.Blocks) != 1 || len(g.Params) != len(wc.Call.Args) {
+						continue
+					}
+					for _, gin := range g.Blocks[0].Instrs {
+						ic, isCall := gin.(*ssa.Call)
+						if !isCall || staticCallee(ic) != stUpdate {
+							continue
+						}
+						if _, fresh := ic.Call.Args[0].(*ssa.Alloc); !fresh {
+							continue
+						}
+						for k, prm := range g.Params {
+							if ic.Call.Args[1] == ssa.Value(prm) {
+								wk := k
+								ok, n = callOnAllTrips(l, g, func(call *ssa.Call) bool { return fromNew(call.Call.Args[wk]) })
+							}
+						}
+					}
+				}
+			}
+		}
 		// and appended at the tail
 		tail := false
 		for b := range l.Blocks {
@@ -767,7 +895,8 @@ func runJournalTrips(c *Ctx) {
 						okUID, whyUID = false, "the UID helper's result cannot be read in terms of its arguments: "+clip(e, 120)
 						continue
 					}
-					body := e[k:]
+					body := e[:k] + "=>{" + unwrapBodies(e[k+3:])
+					body = body[k:]
 					// the trip update X: whatever precedes ".ID.StartDate"
 					x := ""
 					if m := strings.Index(body, ".ID.StartDate"); m >= 0 {
@@ -1294,9 +1423,22 @@ func runTripUpdateShape(c *Ctx, tu *ssa.Function, b *binder) {
 						vehicleGuard := hasGuard(gs, "+", U+".Vehicle", "!= const:nil") || hasGuard(gs, "-", U+".Vehicle", "== const:nil")
 						ifBlk := extra[0].If.Block()
 						onEvery := true
-						for _, blk := range tu.Blocks {
-							if _, isRet := blk.Instrs[len(blk.Instrs)-1].(*ssa.Return); isRet && body.Dominates(blk) && blk != ifBlk && canReachAvoiding(body, blk, ifBlk) && body != ifBlk {
+						if h := st.Parent(); h != tu {
+							// the store sits in a method of the same receiver that Trip.update calls on every path: the
+							// test must be on every path through that method
+							if !helperCallsOnAllPaths[h] {
 								onEvery = false
+							}
+							for _, blk := range h.Blocks {
+								if _, isRet := blk.Instrs[len(blk.Instrs)-1].(*ssa.Return); isRet && blk != ifBlk && h.Blocks[0] != ifBlk && canReachAvoiding(h.Blocks[0], blk, ifBlk) {
+									onEvery = false
+								}
+							}
+						} else {
+							for _, blk := range tu.Blocks {
+								if _, isRet := blk.Instrs[len(blk.Instrs)-1].(*ssa.Return); isRet && body.Dominates(blk) && blk != ifBlk && canReachAvoiding(body, blk, ifBlk) && body != ifBlk {
+									onEvery = false
+								}
 							}
 						}
 						assignedByGuard = vehicleGuard && onEvery
@@ -1338,8 +1480,75 @@ func runTripUpdateShape(c *Ctx, tu *ssa.Function, b *binder) {
 			sb.showBodies = true
 			e = sb.bind(s.Val) // what the UID helper makes of its arguments
 		}
+		if !want[f].ok(e) && f != "TripUID" {
+			// a small helper between the update and the field (`tripStartTime(&u.ID)`): what it computes
+			sb := newBinder(c)
+			sb.showBodies = true
+			if e2 := unwrapBodies(sb.bind(s.Val)); want[f].ok(e2) {
+				e = e2
+			}
+		}
 		c.Check(want[f].ok(e), "ACCT", fname, "Trip."+f+" recorded by every applied update", p.ipos(s), f+" <- "+clip(e, 90), fmt.Sprintf("Trip.%s is taken from %s (expected to mention %v and none of %v)", f, clip(e, 120), want[f].all, want[f].none))
 	}
+}
+
+// unwrapBodies: in an expression rendered with showBodies, every `helper(args)=>{BODY}` is replaced by BODY (what the
+// helper computes, already written in terms of the arguments), innermost first.
+func unwrapBodies(e string) string {
+	for iter := 0; iter < 20; iter++ {
+		k := strings.LastIndex(e, ")=>{")
+		if k < 0 {
+			return e
+		}
+		// the body: from k+4 to the matching brace
+		depth, end := 1, -1
+		for i := k + 4; i < len(e); i++ {
+			switch e[i] {
+			case '{':
+				depth++
+			case '}':
+				depth--
+				if depth == 0 {
+					end = i
+				}
+			}
+			if end >= 0 {
+				break
+			}
+		}
+		if end < 0 {
+			return e
+		}
+		// the call: back from k to the matching parenthesis, then the identifier before it
+		pd, start := 1, -1
+		for i := k - 1; i >= 0; i-- {
+			switch e[i] {
+			case ')':
+				pd++
+			case '(':
+				pd--
+				if pd == 0 {
+					start = i
+				}
+			}
+			if start >= 0 {
+				break
+			}
+		}
+		if start < 0 {
+			return e
+		}
+		for start > 0 {
+			ch := e[start-1]
+			if ch == '_' || ch == '.' || ch == '$' || (ch >= 'a' && ch <= 'z') || (ch >= 'A' && ch <= 'Z') || (ch >= '0' && ch <= '9') {
+				start--
+				continue
+			}
+			break
+		}
+		e = e[:start] + e[k+4:end] + e[end+1:]
+	}
+	return e
 }
 
 // fieldOfType: the one field of struct type t whose type prints as want ("" if none or several).
